@@ -191,7 +191,18 @@ def check_c12(tier):
             nsel += int(f[4]) * 2
         elif f[0] == "V":
             rep.violation("two handles, one solution: %s<%s> evaluator %s: %s" % (f[1], f[2], f[3], f[4]), {"engine": "e2_order2", "part": "selection", "solution": f[1], "scalar": f[2], "evaluator": f[3], "message": f[4], "history": [f[4]]})
+    cm = os.path.join(b.dir, "c12_many")
+    b.compile_harness([os.path.join(VERIF, "src", "c12_many.cpp")], cm, flags=["-O1", "-w"])
+    nmany = 70000 if tier == "thorough" else 700
+    r = subprocess.run([cm, str(nmany)], stdout=subprocess.PIPE, stderr=subprocess.STDOUT, text=True)
+    for line in r.stdout.split("\n"):
+        if line.startswith("BAD "):
+            rep.violation("many handles: " + line[4:300], {"engine": "c12_many", "message": line[4:400], "history": ["%d handles registered, then each selected again" % nmany]})
+    if r.returncode != 0 or "TOTAL" not in r.stdout:
+        sys.stderr.write("c12_many failed rc=%d: %s\n" % (r.returncode, r.stdout[-1000:])); raise SystemExit(2)
     cover(rep, results)
+    rep.coverage["handles_in_one_registry"] = nmany
+    rep.coverage["states"] += nmany; rep.coverage["transitions"] += 4 * nmany; rep.coverage["traces_validated_against_impl"] += nmany
     rep.coverage["two_handle_evaluator_checks"] = nsel
     rep.coverage["states"] += nsel; rep.coverage["transitions"] += nsel; rep.coverage["traces_validated_against_impl"] += nsel
     rep.coverage["eval_observations"] = n; rep.coverage["distinct_assignments_evaluated"] = g
@@ -243,6 +254,18 @@ def check_c11(tier):
                 res = run_space(exe, sp, tier, os.path.join(b.dir, "c11.out"), solution=s, deadline=per)
                 add_violations(rep, res, "C11")
                 results.append(res)
+    # the radiation evaluators as a function of all entries of the vectors last set (closed form / storage-order invariance)
+    cv = os.path.join(b.dir, "c11_vectors")
+    b.compile_harness([os.path.join(VERIF, "src", "c11_vectors.cpp")], cv, flags=["-O1", "-w"])
+    r = subprocess.run([cv], stdout=subprocess.PIPE, stderr=subprocess.STDOUT, text=True)
+    ncfg = ncmp = 0
+    for line in r.stdout.split("\n"):
+        if line.startswith("BAD "):
+            rep.violation(line[4:400], {"engine": "c11_vectors", "message": line[4:600], "history": [line[4:300]]})
+        elif line.startswith("TOTAL "):
+            ncfg, ncmp = int(line.split()[1]), int(line.split()[2])
+    if r.returncode != 0 or ncfg == 0:
+        sys.stderr.write("c11_vectors failed rc=%d: %s\n" % (r.returncode, r.stdout[-1000:])); raise SystemExit(2)
     # every operation sequence (nothing merged) of a parameter-store alphabet on two representative solutions
     for s in ("euler_1d", "radiation_integrated_intensity"):
         if s in sols:
@@ -251,6 +274,8 @@ def check_c11(tier):
             results.append(ress)
     cover(rep, results, "; one closed space per catalogue solution: set/get on first/middle/last/unknown/empty names x values {1.5, marker, marker's neighbour(, -2.25)}, a long double space per solution with the decimal literal -12345.67L; all operation sequences up to depth 4 (thorough 5) of a parameter-store alphabet on euler_1d and the radiation solution, nothing merged, init_param, purge, sanity, display, set_vec/get_vec with lengths {0,3(,1,30)} on every vector, and set_vec relative to the stored contents (one entry appended, last entry dropped, same contents again)")
     rep.coverage["solutions"] = len(sols)
+    rep.coverage["radiation_vector_configurations"] = ncfg; rep.coverage["radiation_closed_form_comparisons"] = ncmp
+    rep.coverage["states"] += ncfg; rep.coverage["transitions"] += ncmp; rep.coverage["traces_validated_against_impl"] += ncmp
     rep.assumptions += ["values restricted to the alphabet; names to first/middle/last registered + unknown + empty", "the two self-test fixtures are excluded as the property states"]
     return rep.finish()
 
